@@ -1,5 +1,5 @@
 (* dispatcher of the correspondence checks *)
-From Smtp Require Import Bytes Sx CheckBase CheckDr CheckConv CheckReply CheckLmtpConv CheckLife CheckTrip.
+From Smtp Require Import Bytes Sx CheckBase CheckDr CheckConv CheckReply CheckLmtpConv CheckLife CheckTrip CheckCli.
 
 (* ---- dispatcher ---- *)
 
@@ -11,6 +11,7 @@ Definition check_sx (x : sx) : verdict :=
       else if sx_is "reply" k then check_reply args
       else if sx_is "life" k then check_life args
       else if sx_is "trip" k then check_trip args
+      else if sx_is "cli" k then check_cli args
       else bad_case
   | _ => bad_case
   end.
